@@ -31,7 +31,7 @@ MON_INV = {
     "C02": ["M_C02_NoReentry", "M_C02_NoSelfWire", "M_C02_Populated", "M_C02_FailIffSelfOnly"],
     "C03": ["M_C03_NoStale", "M_C04_PublishedClean", "M_C02_NoReentry"],
     "C04": ["M_C04_EarlyOnce", "M_C04_OneEarlyRef", "M_C04_PublishedClean", "M_C04_CleanFailure", "M_C04_NoHalfBuilt"],
-    "C05": ["M_C05_Order", "M_C05_Once", "M_C05_DepsFirst", "M_C05_PopulatedBeforeInit", "M_C05_AllCallbacks", "M_C05_Lazy", "M_C05_LazyProcs"],
+    "C05": ["M_C05_Order", "M_C05_Once", "M_C05_DepsFirst", "M_C05_PopulatedBeforeInit", "M_C05_AllCallbacks", "M_C05_Lazy", "M_C05_Procs"],
     "C09": ["M_C09_NoPanic", "M_C09_FaultFails", "M_C04_CleanFailure", "M_C13_Runners"],
 }
 MON_PROPS = {"C01": ["M_C01_PublishedStable"], "C02": [], "C03": ["M_C01_PublishedStable"],
